@@ -397,10 +397,10 @@ Lemma mg_put_coh st h c ids next : CohTx st -> CohTx (mg_put st h c ids next).
 Proof.
   intros [c1 c2 c3 c4 c5 c6 c7 c8]. constructor; simpl; auto.
   all: try (intros Hv; rewrite <- (c6 Hv); apply compute_committee_ext; reflexivity).
-  all: try (intros h0; rewrite !aget_aset; destruct (N.eqb h0 h); [reflexivity|apply c8]).
+  all: try (intros h0; rewrite !aget_aset; destruct (N.eqb h0 h); [symmetry; apply load_store|apply c8]).
 Qed.
 
-Lemma mg_deploy_t st a st' r : mg_deploy st a = Some (st', r) -> TxStep st st'.
+Lemma mg_deploy_t st a m st' r : mg_deploy st a m = Some (st', r) -> TxStep st st'.
 Proof.
   unfold mg_deploy.
   repeat match goal with |- context [if ?c then None else _] => destruct c; [discriminate|] end.
@@ -413,7 +413,7 @@ Proof.
   all: try (intros Hv; rewrite <- (c6 Hv); apply compute_committee_ext; reflexivity).
 Qed.
 
-Lemma mg_update_t st a st' r : mg_update st a = Some (st', r) -> TxStep st st'.
+Lemma mg_update_t st a m st' r : mg_update st a m = Some (st', r) -> TxStep st st'.
 Proof.
   unfold mg_update.
   repeat match goal with |- context [if ?c then None else _] => destruct c; [discriminate|] end.
@@ -448,6 +448,7 @@ Lemma mg_destroy_t st a st' r : WF (L st) -> mg_destroy cfg st a = Some (st', r)
 Proof.
   intros Hwf. unfold mg_destroy.
   destruct (negb (mc_present (contract_of st a))); [discriminate|].
+  match goal with |- context [if ?c then None else _] => destruct c; [discriminate|] end.
   destruct (block_account cfg st (caddr a)) as [[st1 r1]|] eqn:E; [|discriminate].
   pose proof (block_account_t _ _ _ _ Hwf E) as [h1 [m1 [n1 T1]]].
   intros H; inv H. split; [|split; [|split]]; simpl; auto. intros C. apply mg_put_coh, whitelist_clean_coh, T1, C.
@@ -723,12 +724,14 @@ Proof.
     + constructor; simpl; auto; try discriminate.
       all: try (rewrite c4; symmetry; apply dedup_idem).
       all: try (intros role; apply aget_reinit_ds).
+      all: try (intros h; apply aget_reinit_mg).
     + intros Hx. lia.
     + intros _. symmetry. apply compute_committee_ext; reflexivity.
   - constructor; simpl.
     + constructor; simpl; auto; try discriminate.
       all: try (rewrite c4; symmetry; apply dedup_idem).
       all: try (intros role; apply aget_reinit_ds).
+      all: try (intros h; apply aget_reinit_mg).
     + reflexivity.
     + intros Hx. lia.
 Qed.
